@@ -22,7 +22,8 @@ import (
 //	anyGrants   it calls GrantsForAddress(…) (any right at all)
 //
 // plus, from x/marker/types/authz.go, the fields that `Accept` sets in the
-// `MarkerTransferAuthorization` it returns as `Updated`.
+// `MarkerTransferAuthorization` it returns as `Updated`, and the methods that
+// `accountControlsAllSupply` calls (does it read the recorded or the bank supply?).
 func init() {
 	register(Emitter{Name: "MarkerGuards", Run: emitMarkerGuards})
 }
@@ -59,6 +60,7 @@ func emitMarkerGuards(c *Ctx) (string, error) {
 		}
 	}
 	var fns []markerFn
+	var supplyCalls []string
 	for _, fname := range sortedKeys(files) {
 		base := filepath.Base(fname)
 		if base != "marker.go" && base != "msg_server.go" {
@@ -76,6 +78,20 @@ func emitMarkerGuards(c *Ctx) (string, error) {
 			recvVar := ""
 			if len(fd.Recv.List[0].Names) > 0 {
 				recvVar = fd.Recv.List[0].Names[0].Name
+			}
+			if fd.Name.Name == "accountControlsAllSupply" {
+				seen := map[string]bool{}
+				ast.Inspect(fd.Body, func(n ast.Node) bool {
+					if call, ok := n.(*ast.CallExpr); ok {
+						if _, ok := call.Fun.(*ast.SelectorExpr); ok {
+							if src := c.src(call.Fun); !seen[src] {
+								seen[src] = true
+								supplyCalls = append(supplyCalls, src)
+							}
+						}
+					}
+					return true
+				})
 			}
 			mf := markerFn{File: base, Recv: recv, Name: fd.Name.Name}
 			seenCall, seenStatus := map[string]bool{}, map[string]bool{}
@@ -186,7 +202,9 @@ func emitMarkerGuards(c *Ctx) (string, error) {
 			leanBool(f.Authority), leanBool(f.GovEnabled), leanBool(f.AnyGrants), sep)
 	}
 	sb.WriteString("]\n\n/-- the fields set in the `MarkerTransferAuthorization` literal that `Accept` returns as `Updated` -/\n")
-	fmt.Fprintf(&sb, "def acceptUpdatedFields : List String := %s\n\nend Generated\n", leanStrList(updated))
+	fmt.Fprintf(&sb, "def acceptUpdatedFields : List String := %s\n\n", leanStrList(updated))
+	sb.WriteString("/-- the methods `accountControlsAllSupply` calls (selector as written), in order of first use -/\n")
+	fmt.Fprintf(&sb, "def supplyControlCalls : List String := %s\n\nend Generated\n", leanStrList(supplyCalls))
 	return sb.String(), nil
 }
 
